@@ -32,9 +32,9 @@ PROPS = {
         "level_note": LEAVES + "; excludes 2^-128 tag collisions",
     },
     "C15": {
-        "modules": ["CC.Props.C15"], "campaigns": [hist("C15")],
-        "level_text": "Lean theorems: the parser model is total (well-founded recursion, slices in bounds), smart constructors and DNF preserve truth values and atoms; the parser model is compared with AccessPolicy::parse on every string over a 10-character alphabet (metacharacters, spaces, multi-byte) up to length 4 (quick) / 6 (thorough) and on random printed formulas",
-        "level_note": "Unicode White_Space table written by hand; Rust str slicing semantics; parse_sound for arbitrary spacing is covered by correspondence and truth-table comparison, not yet by a theorem",
+        "modules": ["CC.Props.C15", "CC.Props.C15Sound"], "campaigns": [hist("C15")],
+        "level_text": "Lean theorems: the parser model is total (well-founded recursion, slices in bounds), smart constructors and DNF preserve truth values and atoms; parse_sound: every text derived by the documented grammar (inductive relation Den: parentheses first, && before ||, blanks anywhere between tokens and around the two names of an attribute, redundant parentheses) parses to a policy that evaluates, as does its DNF, to the denoted boolean function under every assignment, with the names as written (trimmed); the parser model is compared with AccessPolicy::parse on every string over a 10-character alphabet (metacharacters, spaces, multi-byte) up to length 4 (quick) / 6 (thorough) and on random printed formulas",
+        "level_note": "Unicode White_Space table written by hand; Rust str slicing semantics; attribute names in the grammar of parse_sound contain no metacharacter and no colon; `*` only as the whole policy (parse_star)",
     },
 }
 
